@@ -116,12 +116,18 @@ DeleteVerdict(fn, kind, foreign, loc) ==
   (* itself goes, and whether the call then succeeds, is not demanded                    *)
   ELSE IF foreign = "collide_symlink" THEN [out |-> "Any", unchanged |-> FALSE, all_gone |-> FALSE]
   ELSE [out |-> "OSError", unchanged |-> FALSE, all_gone |-> FALSE]
-Forms3 == {"object", "str", "Path"}
+(* "staleobject": a handle of the kind the deleter wants, made when the path held such an array; *)
+(* the array was deleted since and the path now holds something of another kind.  The call must   *)
+(* raise (which exception is not demanded: the handle itself is of the right type) and touch      *)
+(* nothing.                                                                                       *)
+Forms3 == {"object", "str", "Path", "staleobject"}
 DelCase(t) == /\ (t[4] # "top" => t[2] = "RaggedArray")
               /\ (t[5] = "object" => RightKind(t[1], t[2]))
+              /\ (t[5] = "staleobject" => ~RightKind(t[1], t[2]) /\ t[3] = "none" /\ t[4] = "top")
               /\ (t[3] # "none" => t[2] \notin {"file", "missing"})
 DeleteRows == {[fn |-> t[1], kind |-> t[2], foreign |-> t[3], loc |-> t[4], form |-> t[5],
-                v |-> DeleteVerdict(t[1], t[2], t[3], t[4])] :
+                v |-> IF t[5] = "staleobject" THEN [out |-> "Raises", unchanged |-> TRUE, all_gone |-> FALSE]
+                      ELSE DeleteVerdict(t[1], t[2], t[3], t[4])] :
                  t \in {u \in Deleters \X Kinds \X Foreign \X Locs \X Forms3 : DelCase(u)}}
 
 Creators == {"asarray", "create_array", "asraggedarray", "create_raggedarray", "copy_array", "copy_ragged", "archive"}
